@@ -3,7 +3,7 @@ package main
 // C15: mediator inbox (messagepickup): FIFO, exactly once, count = held, no loss under any single fault.
 //
 // input  := ops joined by ";"
-// op     := add D M F | status D T F | pickup D N F        (D: recipient; M: message number; T: 1 = ~thread present;
+// op     := add D M F | status D T F | pickup D N F | opick D N M - (two overlapping pickups, the first one's delivery fails)        (D: recipient; M: message number; T: 1 = ~thread present;
 //           N: batch size, may be negative; F: "-" no fault | "s<i>" the i-th store call of this op fails | "x" send fails)
 // output := outcomes joined by "|", then "|" and the final dump
 //   outcome := ok | err | ok:count N | ok:batch m,m | err:batch m,m  (what was handed to the outbound dispatcher)
@@ -16,6 +16,8 @@ import (
 	"sort"
 	"strconv"
 	"strings"
+	"sync"
+	"time"
 
 	"github.com/hyperledger/aries-framework-go/component/storageutil/mem"
 	"github.com/hyperledger/aries-framework-go/pkg/didcomm/common/service"
@@ -97,7 +99,32 @@ func c15Run(input string) string {
 	fp := &faultProvider{Provider: mem.NewProvider(), target: messagepickup.Namespace}
 	var sent []string
 	sendFail := false
+	// opickHook (op `opick`): routes the deliveries of two overlapping pickups by the id of the request they answer
+	var opickHook func(id, batch string) (bool, error)
 	out := &mockdispatcher.MockOutbound{ValidateSendToDID: func(msg interface{}, myDID, theirDID string) error {
+		if hook := opickHook; hook != nil {
+			if b, err := json.Marshal(msg); err == nil {
+				var m struct {
+					ID   string `json:"@id"`
+					Msgs []struct {
+						Msg []byte `json:"msg"`
+					} `json:"messages~attach"`
+				}
+				if json.Unmarshal(b, &m) == nil {
+					var ids []string
+					for _, x := range m.Msgs {
+						ids = append(ids, string(x.Msg))
+					}
+					batch := "batch -"
+					if len(ids) > 0 {
+						batch = "batch " + strings.Join(ids, ",")
+					}
+					if handled, e := hook(m.ID, batch); handled {
+						return e
+					}
+				}
+			}
+		}
 		if sendFail {
 			return errors.New("injected send fault")
 		}
@@ -178,6 +205,66 @@ func c15Run(input string) string {
 			m := map[string]interface{}{"@id": fmt.Sprintf("id%d", n), "@type": messagepickup.BatchPickupMsgType,
 				"batch_size": bs}
 			err = svc.VerifHandleBatchPickup(c15Msg(m), "me", f[1])
+		case "opick":
+			// opick D N M -: a pickup of N whose delivery FAILS - and while that delivery is under way another pickup of M
+			// for the same recipient arrives (another goroutine). Removal and hand-out are one step: the second pickup can
+			// only see the inbox as it is after the first one has put its batch back. Reported as two outcomes.
+			dids[f[1]] = true
+			bs1, _ := strconv.Atoi(f[2])
+			bs2, _ := strconv.Atoi(f[3])
+			id1 := fmt.Sprintf("id%d", n)
+			id2 := id1 + "-b"
+			msg2 := c15Msg(map[string]interface{}{"@id": id2, "@type": messagepickup.BatchPickupMsgType, "batch_size": bs2})
+			var (
+				mu      sync.Mutex
+				sent2   []string
+				started bool
+			)
+			done2 := make(chan error, 1)
+			opickHook = func(id, batch string) (bool, error) {
+				switch {
+				case id == id2:
+					mu.Lock()
+					sent2 = append(sent2, batch)
+					mu.Unlock()
+					return true, nil
+				case id == id1 && !started:
+					started = true
+					go func() { done2 <- svc.VerifHandleBatchPickup(msg2, "me", f[1]) }()
+					// give the second pickup every chance to run now (it must not be able to)
+					select {
+					case e := <-done2:
+						done2 <- e
+					case <-time.After(100 * time.Millisecond):
+					}
+					return true, errors.New("injected send fault")
+				}
+				return false, nil
+			}
+			err = svc.VerifHandleBatchPickup(c15Msg(map[string]interface{}{"@id": id1, "@type": messagepickup.BatchPickupMsgType,
+				"batch_size": bs1}), "me", f[1])
+			var err2 error
+			if started {
+				err2 = <-done2
+			} else {
+				// the first pickup sent nothing (no inbox / refused before the delivery): the second one runs after it
+				err2 = svc.VerifHandleBatchPickup(msg2, "me", f[1])
+			}
+			opickHook = nil
+			o1, o2 := "ok", "ok"
+			if err != nil {
+				o1 = "err"
+			}
+			if err2 != nil {
+				o2 = "err"
+			}
+			mu.Lock()
+			if len(sent2) > 0 {
+				o2 += ":" + strings.Join(sent2, "+")
+			}
+			mu.Unlock()
+			outs = append(outs, o1, o2)
+			continue
 		default:
 			return "bad-op"
 		}
@@ -249,6 +336,10 @@ func c15Gen(r *Rng, tier string) []string {
 				} else {
 					fault = fmt.Sprintf("s%d", r.N(3))
 				}
+			}
+			if r.N(25) == 0 {
+				ops = append(ops, fmt.Sprintf("opick %s %d %d -", d, 1+r.N(3), 1+r.N(3)))
+				continue
 			}
 			switch r.N(10) {
 			case 0, 1, 2, 3:
